@@ -142,6 +142,18 @@ func c02GenGraph(r *hx.Rand, maxTriples int) []rdf.Triple {
 			ts = append(ts, rdf.Triple{Subject: subj(), Predicate: c02GenIRI(r), Object: head})
 		}
 	}
+	if r.Chance(1, 5) { // twins: distinct blank nodes with the same description, referenced by nothing
+		p, o := c02GenIRI(r), rdf.ObjectValue(c02GenIRI(r))
+		if r.Bool() {
+			p = rdf.IRI(rdfNS + "type")
+		}
+		if r.Chance(1, 3) {
+			o = c02GenLiteral(r)
+		}
+		for i, k := 0, 2+r.Intn(2); i < k; i++ {
+			ts = append(ts, rdf.Triple{Subject: f.NewBlankNode(), Predicate: p, Object: o})
+		}
+	}
 	// a graph is a set
 	seen := map[string]bool{}
 	nm := hx.NewNamer()
